@@ -16,8 +16,17 @@
       (no claim below processed sections); [offs_ok] : no true offset is 2^64-1;
       [denotes fb (n, ancestors) r] : r is "unknown", the node's own (offset, length), or -- only
       with the fallback -- the (offset, length) of one of its ancestors;
-    - [volume_of_one size nodes r] : VolumeOf for one resolved range given what the walker reports. *)
-From CSS Require Import Lib.Base Model.AddrMap Proofs.AddrMap.
+    - [volume_of_one size nodes r] : VolumeOf for one resolved range given what the walker reports;
+    - [visp t false false] : the nodes the callback is called for, each with "below a processed
+      section"; [located p] : the node has a name and is not below a processed section;
+      [visit ...] returns the reported ranges and the final per-name visit counters ([cm_get]);
+    - [pcr0_digest_ref first ds alg] : the range of the ibbDigest reference MeasurePCR0DATA builds
+      for hash algorithm [alg], [first] = address of the first entry of the BPM's IBB digest list,
+      [ds] = (algorithm, buffer length) per entry; [pcr0_digest_refs] : for SHA1 and SHA256, in the
+      order they are measured; [dentry] = (algorithm, hash bytes), [ser_list es] the bytes of the
+      entries on flash (HashAlg(2) Size(2) HashBuffer), [shape_of es] their shape,
+      [slice off len l] = len bytes of l from off. *)
+From CSS Require Import Lib.Base Model.AddrMap Proofs.AddrMap Proofs.AddrMapExt.
 
 (** * 1. Address maps are mutually inverse — for every 64-bit value and every size *)
 
@@ -200,6 +209,39 @@ Theorem C14_walker_unconditional_refuted :
 Proof. exact walker_unconditional_refuted. Qed.
 Print Assumptions C14_walker_unconditional_refuted.
 
+(** Under the same hypothesis: every node that HAS a name and is not below a processed section
+    is reported with exactly its own range -- "unknown" is not an option for it, and neither
+    is the row of a namesake, whether that namesake was visited outside or below a processed
+    (compressed) section. *)
+Theorem C14_walker_located_partial :
+  forall rm fb t,
+    rows_ok rm (pre t false) -> offs_ok (pre t false) ->
+    exists rs, walk rm fb t = Ok rs /\
+      Forall2 (fun p r => located p -> r = true_range (fst p)) (visp t false false) rs /\
+      map fst (visp t false false) = map fst (vis t false []).
+Proof. exact walker_located. Qed.
+Print Assumptions C14_walker_located_partial.
+
+(** ... because the per-name visit counter advances for EVERY named node, also for those
+    whose row is not used (below processed sections): at the end it equals the number of
+    nodes (= rows) of that name. *)
+Theorem C14_walker_counts_partial :
+  forall rm fb t,
+    rows_ok rm (pre t false) -> offs_ok (pre t false) ->
+    exists rs cm, visit rm fb t false false None [] = Ok (rs, cm) /\
+      forall n, n <> 0 -> cm_get cm n = length (filter (has_name n) (pre t false)).
+Proof. exact walker_counts. Qed.
+Print Assumptions C14_walker_counts_partial.
+
+(** satisfiable with a name (2) that occurs below a processed section and again after it:
+    the later nodes get the 4th and 5th row of that name, i.e. their own offsets *)
+Example C14_walker_repeated_name_example :
+  (rows_ok rep_rows (pre rep_tree false) /\ offs_ok (pre rep_tree false) /\ no_stop rep_tree = true) /\
+  walk rep_rows false rep_tree
+  = Ok [(0, 4096); (96, 300); (MAXU64, 276); (MAXU64, 200); (MAXU64, 40); (MAXU64, 40);
+        (400, 64); (464, 512); (560, 40)].
+Proof. exact (conj rep_rows_ok rep_walk). Qed.
+
 (** * 7. VolumeOf (one range): an answer is never "no volumes, no error"; it is the first
       located volume that touches the range; _partial: it CONTAINS the range if the range does not
       straddle the boundary of any located volume (hypothesis) *)
@@ -231,3 +273,41 @@ Theorem C14_volumeof_error_only_without_volume :
     forall w, In (true, w) nodes -> intersect w r = true -> fst w = MAXU64.
 Proof. exact volume_of_one_err. Qed.
 Print Assumptions C14_volumeof_error_only_without_volume.
+
+(** * 8. PCR0_DATA: the reference to the IBB digest of a hash algorithm addresses exactly the
+      hash buffer of the FIRST entry of the BPM's digest list with that algorithm -- for every
+      list (any order, any other algorithms in between, duplicates, other buffer lengths),
+      and independently of which algorithms were looked up before. [first] is the address of
+      the first entry; the entries' bytes [ser_list es] lie from there on. *)
+
+Theorem C14_pcr0_digest_exact :
+  forall first es alg addr len,
+    0 <= first -> first + Z.of_nat (length (ser_list es)) < W64 ->
+    pcr0_digest_ref first (shape_of es) alg = Some (addr, len) ->
+    exists before e after,
+      es = before ++ e :: after /\ fst e = alg /\ Forall (fun x => fst x <> alg) before /\
+      addr = first + Z.of_nat (length (ser_list before)) + 4 /\
+      len = Z.of_nat (length (snd e)) /\
+      slice (addr - first) len (ser_list es) = snd e.
+Proof. exact pcr0_digest_exact. Qed.
+Print Assumptions C14_pcr0_digest_exact.
+
+(** no reference exactly when the list has no entry of the algorithm *)
+Theorem C14_pcr0_digest_none_iff :
+  forall first es alg,
+    pcr0_digest_ref first (shape_of es) alg = None <-> Forall (fun x => fst x <> alg) es.
+Proof. exact pcr0_digest_none. Qed.
+Print Assumptions C14_pcr0_digest_none_iff.
+
+(** the search starts at the first entry for every algorithm *)
+Theorem C14_pcr0_digest_refs_pointwise :
+  forall first ds,
+    pcr0_digest_refs first ds = [pcr0_digest_ref first ds ALG_SHA1; pcr0_digest_ref first ds ALG_SHA256].
+Proof. exact pcr0_digest_refs_pointwise. Qed.
+Print Assumptions C14_pcr0_digest_refs_pointwise.
+
+Example C14_pcr0_digest_example :
+  pcr0_digest_refs 4294924000 (shape_of ex_digests) = [Some (4294924022, 5); Some (4294924004, 8)] /\
+  slice (4294924022 - 4294924000) 5 (ser_list ex_digests) = [20;21;22;23;24] /\
+  slice (4294924004 - 4294924000) 8 (ser_list ex_digests) = [1;2;3;4;5;6;7;8].
+Proof. exact ex_digest_refs. Qed.
